@@ -252,7 +252,7 @@ func genEvidence(r *vh.RNG, s *scenario, parent uint64) (line string, story stri
 		line = fmt.Sprintf("E %s S %d %d %d %d 2 %s %s", typ, round, idxRI, other, vt, sg(key, hashN(a), round, idxRI, kind), sg(key, hashN(b), round, idxRI, kind))
 	case 5:
 		story = "ev:wrong-round"
-		rd := []uint64{parent + 1, parent - 1, parent + 1000, parent - 120, parent - 121, 0, parent + 9}[r.Intn(7)]
+		rd := []uint64{parent + 1, parent - 1, parent + 1000, parent - 120, parent - 121, 0, parent + 9, parent - 2, parent - 3, parent - 4, parent - 10, parent - 11}[r.Intn(12)]
 		if rd > 1<<62 {
 			rd = 0
 		}
@@ -332,6 +332,12 @@ func genUnit(r *vh.RNG, s *scenario, dist func(string)) []string {
 		hdr = parent + uint64(r.Intn(400))
 	}
 	lines := []string{fmt.Sprintf("U %d %d", parent, hdr)}
+	if r.Chance(35) {
+		// another parameter table: penalty fraction, expel rounds, expiry window (small windows reach the boundary)
+		frac := []uint64{0, 1, 2, 7, 33, 100}[r.Intn(6)]
+		lines = append(lines, fmt.Sprintf("CFG %d %d %d", frac, []uint64{0, 1, 256, 100000}[r.Intn(4)], []uint64{0, 1, 3, 10, 120}[r.Intn(5)]))
+		dist("cfg:varied")
+	}
 	st, _, err := s.k.A.NextState()
 	if err != nil {
 		panic(err)
